@@ -7,9 +7,12 @@ package main
 
 import (
 	"fmt"
+	"go/types"
 	"os"
 	"sort"
 	"strings"
+
+	"golang.org/x/tools/go/ssa"
 )
 
 // optionAtoms: which option an atom of New's path conditions talks about ("" = none).
@@ -177,6 +180,28 @@ func ruleC01Config(cx *Ctx) {
 		}
 	}
 	a.flush()
+	// the default weigher of an unweighted cache counts every entry as 1 (the size bound is a number of entries)
+	for _, f := range cx.P.FuncsOfPkg("") {
+		if f.Parent() == nil || f.Signature.Results().Len() != 1 || len(f.Params) != 2 {
+			continue
+		}
+		if b, ok := f.Signature.Results().At(0).Type().Underlying().(*types.Basic); !ok || b.Kind() != types.Uint32 {
+			continue
+		}
+		if p := f.Parent(); p.Signature.Recv() == nil || namedTypeName(derefType(p.Signature.Recv().Type())) != "Options" {
+			continue
+		}
+		one, nr := true, 0
+		allInstrs(f, func(in ssa.Instruction) {
+			if r, ok := in.(*ssa.Return); ok && len(r.Results) == 1 {
+				nr++
+				if k, isK := constUint(r.Results[0]); !isK || k != 1 {
+					one = false
+				}
+			}
+		})
+		cx.R.Check(one && nr > 0, rule, funcName(f), "default weigher returns 1", cx.P.Pos(f.Pos()), "without a weigher every entry weighs 1")
+	}
 	cx.R.AddInt("config_scenarios", len(scen))
 	cx.R.AddInt("config_paths", paths)
 	cx.R.AddInt("config_rejected_by_validate", rejected)
